@@ -1473,15 +1473,17 @@ Lemma call_bindings_ff : forall bs s t k bi s' r,
   hr_invalidated r = false /\
   exists new, hlog s' = new ++ hlog s /\
     Forall (entry_at k s) new /\
-    (is_final_key k = true -> hr_ok r = true /\
+    (is_final_key k = true -> hr_ok r = true) /\
+    (hr_ok r = true ->
        forall i, count_bind new i = if (bi <=? i) && defines bs (i - bi) k then 1 else 0) /\
     (is_final_key k = false -> vshape (hr_ok r) new).
 Proof.
   induction bs as [|b rest IH]; intros s t k bi s' r G H.
   - simpl in H. inversion H; subst. destruct G as (G1 & G2 & G3).
     split; [apply keeps_refl|]. split; [exact G1|]. split; [tauto|]. split; [reflexivity|].
-    exists []. split; [reflexivity|]. split; [constructor|]. split.
-    + intros _. split; [reflexivity|]. intros i. rewrite defines_nil, andb_false_r. reflexivity.
+    exists []. split; [reflexivity|]. split; [constructor|]. split; [|split].
+    + intros _. reflexivity.
+    + intros _ i. rewrite defines_nil, andb_false_r. reflexivity.
     + intros _. left. split; [reflexivity | constructor].
   - cbn [call_bindings] in H. destruct (existsb (hkey_eqb k) b) eqn:Eb.
     + destruct G as (G1 & G2 & G3). rewrite G2 in H. cbv beta iota zeta in H.
@@ -1507,21 +1509,23 @@ Proof.
       * inversion H; subst s' r. apply andb_true_iff in Ev. destruct Ev as [Ev1 Ev2].
         apply negb_true_iff in Ev1. apply negb_true_iff in Ev2.
         split; [exact K2|]. split; [exact F2|]. split; [exact Q2|]. split; [reflexivity|].
-        exists [e]. split; [exact L2|]. split; [constructor; [exact Ee | constructor]|]. split.
+        exists [e]. split; [exact L2|]. split; [constructor; [exact Ee | constructor]|].
+        split; [|split].
         -- intros Hf. congruence.
+        -- cbn. intros Hx. discriminate.
         -- intros _. right. split; [reflexivity|]. exists e, []. split; [reflexivity|].
            split; [exact Ev2 | constructor].
       * assert (G' : good s2).
         { apply (keeps_good s s2 K2); [unfold good; tauto | exact F2]. }
-        destruct (IH s2 t k (S bi) s' r G' H) as (K3 & F3 & Q3 & I3 & newr & L3 & E3 & C3 & V3).
+        destruct (IH s2 t k (S bi) s' r G' H) as (K3 & F3 & Q3 & I3 & newr & L3 & E3 & C3a & C3 & V3).
         split; [eapply keeps_trans; eassumption|]. split; [exact F3|]. split; [tauto|].
         split; [exact I3|].
         exists (newr ++ [e]). split; [rewrite L3, L2, <- app_assoc; reflexivity|]. split.
         { apply Forall_app. split; [|constructor; [exact Ee | constructor]].
           eapply Forall_impl; [|exact E3]. intros h (Y1 & Y2 & Y3). unfold entry_at.
           rewrite <- (keeps_active _ _ K2), <- (keeps_clock _ _ K2). tauto. }
-        split.
-        -- intros Hf. destruct (C3 Hf) as [Hok Hc]. split; [exact Hok|].
+        split; [exact C3a|]. split.
+        -- intros Hok. pose proof (C3 Hok) as Hc.
            intros i. rewrite count_bind_app, Hc, defines_shift, Eb.
            unfold count_bind. cbn [filter hl_binding e].
            destruct (bi =? i) eqn:Ebi.
@@ -1536,10 +1540,10 @@ Proof.
            ++ right. split; [exact Hok|]. exists e', (rest' ++ [e]). subst newr.
               split; [reflexivity|]. split; [exact Hr|].
               apply Forall_app. split; [exact Hall|]. constructor; [exact Ev | constructor].
-    + destruct (IH s t k (S bi) s' r G H) as (K3 & F3 & Q3 & I3 & newr & L3 & E3 & C3 & V3).
+    + destruct (IH s t k (S bi) s' r G H) as (K3 & F3 & Q3 & I3 & newr & L3 & E3 & C3a & C3 & V3).
       split; [exact K3|]. split; [exact F3|]. split; [exact Q3|]. split; [exact I3|].
-      exists newr. split; [exact L3|]. split; [exact E3|]. split; [|exact V3].
-      intros Hf. destruct (C3 Hf) as [Hok Hc]. split; [exact Hok|].
+      exists newr. split; [exact L3|]. split; [exact E3|]. split; [exact C3a|]. split; [|exact V3].
+      intros Hok. pose proof (C3 Hok) as Hc.
       intros i. rewrite Hc, defines_shift, Eb, andb_false_r. reflexivity.
 Qed.
 
@@ -1549,16 +1553,19 @@ Lemma handle_ff : forall s t k s' t' ok,
   exists new, hlog s' = new ++ hlog s /\ Forall (entry_at k s) new /\
     (is_final_key k = true -> ok = true /\
        forall i, count_bind new i = if defines (bindings s) i k then 1 else 0) /\
-    (is_final_key k = false -> vshape ok new).
+    (is_final_key k = false -> vshape ok new) /\
+    (ok = true -> forall i, count_bind new i = if defines (bindings s) i k then 1 else 0).
 Proof.
   intros s t k s' t' ok G Hinv H. unfold handle in H. rewrite Hinv in H.
   destruct (call_bindings s t k (bindings s) 0 false false) as [s1 r] eqn:E.
-  destruct (call_bindings_ff _ _ _ _ _ _ _ G E) as (K & F & Q & I & new & L & En & C & V).
+  destruct (call_bindings_ff _ _ _ _ _ _ _ G E) as (K & F & Q & I & new & L & En & Ca & C & V).
   rewrite I in H. inversion H; subst s' t' ok.
   split; [reflexivity|]. split; [exact K|]. split; [eapply keeps_good; eassumption|].
-  split; [exact Q|]. exists new. split; [exact L|]. split; [exact En|]. split; [|exact V].
-  intros Hf. destruct (C Hf) as [Hok Hc]. split; [exact Hok|].
-  intros i. rewrite Hc. rewrite Nat.sub_0_r. reflexivity.
+  split; [exact Q|]. exists new. split; [exact L|]. split; [exact En|].
+  assert (Cn : hr_ok r = true -> forall i, count_bind new i = if defines (bindings s) i k then 1 else 0).
+  { intros Hok i. rewrite (C Hok). rewrite Nat.sub_0_r. reflexivity. }
+  split; [|split; [exact V | exact Cn]].
+  intros Hf. split; [exact (Ca Hf) | exact (Cn (Ca Hf))].
 Qed.
 
 (* ------------------------------------------------------------------ *)
@@ -1737,7 +1744,7 @@ Lemma handle_nbase : forall s t k s1 t1 ok n,
     Forall (fun h => hl_key h = k) new.
 Proof.
   intros s t k s1 t1 ok n G Hinv H Hn.
-  destruct (handle_ff _ _ _ _ _ _ G Hinv H) as (Ht & K & G1 & Q & new & L & En & C & V).
+  destruct (handle_ff _ _ _ _ _ _ G Hinv H) as (Ht & K & G1 & Q & new & L & En & C & V & _).
   split; [exact Ht|]. split; [apply G1|]. exists new. split; [|split; [exact C|split; [exact V|]]].
   - unfold nbase. split; [exact K|]. split; [exact G1|]. split; [exact Q|].
     split; [apply tkeeps_refl|]. split; [exact L|]. split.
